@@ -632,7 +632,7 @@ def run_rtc(job, src_dir, count=12, seed=0, extra_inputs=()):
             # the functional contract - add variants with NaN / inf samples in the float arrays
             rng = random.Random(seed + 7)
             extra = []
-            for c0 in cases[:6]:
+            for c0 in cases[:3]:
                 for special in (float("nan"), float("inf")):
                     c1 = {k: (v.copy() if isinstance(v, np.ndarray) else v) for k, v in c0.items()}
                     hit = False
@@ -644,7 +644,8 @@ def run_rtc(job, src_dir, count=12, seed=0, extra_inputs=()):
                         extra.append(c1)
             cases = cases + extra
         order = [pn for pn, _ in f.params]
-        got = call_real(src_dir, job.module, job.func, order, cases)
+        got = call_real(src_dir, job.module, job.func, order, cases,
+                        **({"per_case_s": 1.5, "max_hang": 2} if getattr(job, "only_kinds", None) else {}))
         if got.get("missing"):
             out["inapplicable"] = "not callable from Python (cdef)"
             return out
@@ -719,7 +720,8 @@ def run_layer(jobs, src_dir, tier="quick", seed=0, workers=10, only=None, extra=
     if not sel:
         return []
     count = 10 if tier == "quick" else 40
-    tasks = [(j, src_dir, count, seed, (extra or {}).get(j.tag, ())) for j in sel]
+    tasks = [(j, src_dir, (max(4, count // 2) if getattr(j, "only_kinds", None) else count), seed, (extra or {}).get(j.tag, ()))
+             for j in sel]
     if len(tasks) == 1:
         return [_rtc_worker(tasks[0])]
     with ProcessPoolExecutor(max_workers=min(workers, len(tasks))) as ex:
